@@ -28,7 +28,7 @@ ASSUMPTIONS = [
     "only array-level memory is judged; nested mutable objects inside object columns are shared by every NumPy copy",
 ]
 REACH = {"quick": {"nomut-checks": 20000, "alias-checks": 20000, "active-probes": 5000, "vector-calls": 1000, "ok:sort": 200, "ok:unique": 200,
-                   "ok:aggregate": 50, "ok:split": 50, "vec:kind:ustr": 40}}
+                   "ok:aggregate": 50, "ok:split": 50, "vec:kind:ustr": 30}}
 
 VMETHODS = ["as_boolean", "as_bytes", "as_date", "as_datetime", "as_float", "as_integer", "as_object", "as_string", "concat", "drop_na",
             "head", "tail", "map", "range", "rank", "replace_na", "sample", "sort", "sort_desc", "unique", "to_strings", "tolist_roundtrip",
